@@ -65,6 +65,7 @@ pub fn hex(bs: &[u8]) -> String {
 pub static WATCH_ARMED: std::sync::atomic::AtomicBool = std::sync::atomic::AtomicBool::new(false);
 pub static WATCH_TICK: std::sync::atomic::AtomicU64 = std::sync::atomic::AtomicU64::new(0);
 pub static WATCH_CASE: std::sync::Mutex<String> = std::sync::Mutex::new(String::new());
+pub static WATCH_LAST: std::sync::Mutex<String> = std::sync::Mutex::new(String::new());
 pub fn progress(id: &str) {
     if let Ok(mut g) = WATCH_CASE.lock() {
         g.clear();
